@@ -138,10 +138,16 @@ func Strip(s string) string { return ansi.ReplaceAllString(s, "") }
 
 // Run executes spok with args in cwd. env entries are added to a scrubbed environment.
 func (b *Box) Run(cwd string, env []string, timeout time.Duration, args ...string) Result {
+	return b.RunWrapped(nil, cwd, env, timeout, args...)
+}
+
+// RunWrapped is Run with a wrapper command (e.g. strace with fault injection) in front of spok.
+func (b *Box) RunWrapped(wrapper []string, cwd string, env []string, timeout time.Duration, args ...string) Result {
 	b.Calls++
 	cx, cancel := context.WithTimeout(context.Background(), timeout)
 	defer cancel()
-	cmd := exec.CommandContext(cx, b.Spok, args...)
+	argv := append(append(append([]string(nil), wrapper...), b.Spok), args...)
+	cmd := exec.CommandContext(cx, argv[0], argv[1:]...)
 	cmd.Dir = cwd
 	cmd.Env = append([]string{"HOME=" + b.Home, "PATH=/usr/local/bin:/usr/bin:/bin", "LANG=C", "TERM=dumb", "NO_COLOR=1"}, env...)
 	attr := &syscall.SysProcAttr{Setpgid: true}
